@@ -30,18 +30,28 @@ Definition mp_general (pf : option morder) (xchg : bool) (o_st o_ld : morder) (c
 Definition mp_general_safe pf xchg o_st o_ld cf : bool :=
   forallb (fun o => negb (mp_bad o)) (outcomes (mp_general pf xchg o_st o_ld cf)).
 
-(* the paths of the queue, orders from the source *)
-Definition single_store := order_of_code deal_store_order.
+(* the paths of the queue, orders from the source.  A path's access uses either a literal order or the `order`
+   parameter handed down by its caller (code 100): `eff caller site` resolves that. *)
+Definition eff (caller site : Z) : morder := if Z.eqb site 100 then order_of_code caller else order_of_code site.
+
+Definition single_store := eff deal_store_order set_version_order.
 Definition single_xchg := order_of_code xchg_order.
-Definition single_load := order_of_code deal_wait_order.
-Definition try_load := order_of_code try_deal_check_order.
-Definition try_store := order_of_code try_deal_store_order.
-Definition batch_store := order_of_code deal_n_store_order.
-Definition batch_load := order_of_code deal_n_wait_order.
+(* single push/pop observe the version through the fast-path load, the spin slow path's polling load, and the
+   futex slow path's reload and waiter-registration CAS: each must carry the caller's order *)
+Definition single_load := eff deal_wait_order fast_load_order.
+Definition single_spin_load := eff deal_wait_order spin_load_order.
+Definition single_block_reload := eff deal_wait_order block_reload_order.
+Definition single_block_cas := eff deal_wait_order block_cas_order.
+Definition try_load := eff try_deal_check_order version_getter_order.
+Definition try_store := eff try_deal_store_order set_version_order.
+Definition batch_store := eff deal_n_store_order set_version_order.
+Definition batch_load := eff deal_n_wait_order fast_load_order.
+Definition batch_spin_load := eff deal_n_wait_order spin_load_order.
+Definition batch_block_reload := eff deal_n_wait_order block_reload_order.
 Definition batch_rel_fence := fence_order osites_deal_n true.
 Definition batch_acq_fence := fence_order osites_deal_n false.
-Definition tryn_store := order_of_code try_deal_n_store_order.
-Definition tryn_load := order_of_code try_deal_n_check_order.
+Definition tryn_store := eff try_deal_n_store_order set_version_order.
+Definition tryn_load := eff try_deal_n_check_order version_getter_order.
 Definition tryn_rel_fence := fence_order osites_try_deal_n true.
 Definition tryn_acq_fence := fence_order osites_try_deal_n false.
 
@@ -50,7 +60,10 @@ Definition publishers : list (option morder * bool * morder) :=
   [ (None, false, single_store); (None, true, single_xchg); (None, false, try_store); (None, true, single_xchg);
     (batch_rel_fence, false, batch_store); (tryn_rel_fence, false, tryn_store) ].
 Definition observers : list (morder * option morder) :=
-  [ (single_load, None); (try_load, None); (batch_load, batch_acq_fence); (tryn_load, tryn_acq_fence) ].
+  [ (single_load, None); (single_spin_load, None); (single_block_reload, None); (single_block_cas, None);
+    (try_load, None);
+    (batch_load, batch_acq_fence); (batch_spin_load, batch_acq_fence); (batch_block_reload, batch_acq_fence);
+    (tryn_load, tryn_acq_fence) ].
 Definition all_pairs_safe : bool :=
   forallb (fun p => forallb (fun c => mp_general_safe (fst (fst p)) (snd (fst p)) (snd p) (fst c) (snd c)) observers) publishers.
 
